@@ -285,6 +285,12 @@ impl ObjectRef {
     self.header().kind()
   }
 
+  /// The address of the referenced object
+  #[cfg(feature = "verif")]
+  pub fn verif_addr(&self) -> usize {
+    self.ptr.as_ptr() as usize
+  }
+
   #[inline]
   pub fn is_kind(&self, kind: ObjectKind) -> bool {
     self.header().kind() == kind
